@@ -594,7 +594,12 @@ class SymReal:
         return SymInt(-z3.ToInt(-self.z))
 
     def __format__(self, spec):
-        raise Concretised("format of SymReal")
+        if spec:
+            raise Concretised("format of SymReal with spec %r" % spec)
+        return "<symbolic real>"     # only ever rendered into messages; any numeric use of the text would fail loudly
+
+    def __str__(self):
+        return self.__format__("")
 
     def __repr__(self):
         return "SymReal(%s)" % self.z
